@@ -29,6 +29,7 @@ from ai_edge_quantizer.algorithms.uniform_quantize import uniform_quantize_tenso
 from tensorflow.lite.tools import flatbuffer_utils
 
 PROP = 'C18'
+patch.snapshot_process_state()
 LEVEL = 'model_checking'
 USES_FAKE_INTERPRETER = True
 FUNCS = [model_validator.compare_model,
@@ -79,11 +80,32 @@ def symfloat(x):
   return float(x)
 
 
-def quantized_bytes(skel, rname):
-  res = P.replay_public(skel, rname, None)
-  if res['raised'] is not None:
+def quantized_bytes(skel, rname, stretch=None):
+  """The skeleton really quantized under the recipe (default concrete
+  statistics; stretch: the same with all ranges multiplied - another
+  quantized version of the model with other parameters at the same
+  coordinates)."""
+  if stretch is None:
+    res = P.replay_public(skel, rname, None)
+    if res['raised'] is not None:
+      return None
+    return res['bytes']
+  import copy
+  from ai_edge_quantizer import quantizer as quantizer_lib
+  mb = P.model_bytes_of(skel)
+  recipe = P.recipe_family(mb, 'thorough')[rname]
+  inp = flatbuffer_utils.read_model_from_bytearray(bytearray(mb))
+  q = quantizer_lib.Quantizer(mb, copy.deepcopy(recipe))
+  qsvs = None
+  if q.need_calibration:
+    qsvs = {k: {kk: (vv * np.float32(stretch)).astype(np.float32)
+                for kk, vv in v.items()}
+            for k, v in P.concrete_qsvs(inp, None).items()}
+  try:
+    with np.errstate(all='ignore'):
+      return bytes(q.quantize(qsvs).quantized_model)
+  except Exception:  # pylint: disable=broad-except
     return None
-  return res['bytes']
 
 
 def content_fn(tag, sample, si, ti, name, shape, dtype):
@@ -127,15 +149,19 @@ def my_dequantize(arr, detail):
   return res.reshape(shape) if shape else SymArray((), res.dtype, res.el)
 
 
-def make_harness(ref_bytes, tgt_bytes, metric, n):
+def make_harness(ref_bytes, tgt_bytes, metric, n, prior_bytes=None):
   def h(e):
     be = symnp.set_backend(B.UF())
     be.reset()
+    # every path starts from the process-wide state of a fresh process
+    patch.fresh_process_state()
     fakeinterp.STATE.update(sample=0, tag='', content=content_fn)
     ref_m = flatbuffer_utils.read_model_from_bytearray(bytearray(ref_bytes))
     tags = {bytes(ref_bytes): 'ref', bytes(tgt_bytes): 'tgt'}
     if ref_bytes == tgt_bytes:
       tags = {bytes(ref_bytes): 'same'}
+    if prior_bytes is not None and bytes(prior_bytes) not in tags:
+      tags[bytes(prior_bytes)] = 'pri'
     mod = TaggedModule(tags)
     test_data = {}
     snap = {}
@@ -156,6 +182,18 @@ def make_harness(ref_bytes, tgt_bytes, metric, n):
                      symfloat), patch.rebind(
                          'ai_edge_quantizer.model_validator', 'float',
                          symfloat):
+      if prior_bytes is not None:
+        # history: another quantized version of the same model (other
+        # parameters at the same tensor coordinates) was validated before in
+        # this process; its result is not looked at
+        try:
+          model_validator.compare_model(
+              ref_bytes, prior_bytes, {k: data_for(k) for k in test_data},
+              metric, fn)
+        except Inconclusive:
+          raise
+        except Exception:  # pylint: disable=broad-except
+          pass
       try:
         result = model_validator.compare_model(
             ref_bytes, tgt_bytes, lazy, metric, fn)
@@ -380,8 +418,13 @@ def job_val(job):
     tgt = ref if rname == 'SELF' else quantized_bytes(skel, rname)
     if tgt is None:
       continue
+    prior = None
+    if rname != 'SELF' and n == 1:
+      prior = quantized_bytes(skel, rname, stretch=4.0)
+      if prior == tgt:
+        prior = None
     en = Engine(solver_timeout_ms=30000, max_paths=40, wall_budget_s=200)
-    en.explore(make_harness(ref, tgt, metric, n))
+    en.explore(make_harness(ref, tgt, metric, n, prior))
     st.merge(en.stats)
     inconc += [f'{skel}/{rname}/{metric}/{n}: {x}' for x in en.inconclusive]
     seen = set()
@@ -390,7 +433,8 @@ def job_val(job):
         continue
       seen.add(v.name)
       c = Candidate(v.name, {'skeleton': skel, 'recipe': rname,
-                             'metric': metric, 'n': n, 'info': v.info})
+                             'metric': metric, 'n': n, 'info': v.info,
+                             'prior': prior is not None})
       c.job = job.name
       cands.append(c)
     if len(samples) < 2:
@@ -475,6 +519,12 @@ def replay(c):
       ss.append(s)
     data[key] = ss
   fn = validation_utils.get_validation_func(d['metric'])
+  if d.get('prior'):
+    prior = quantized_bytes(d['skeleton'], d['recipe'], stretch=4.0)
+    try:
+      model_validator.compare_model(ref, prior, data, d['metric'], fn)
+    except Exception:  # pylint: disable=broad-except
+      pass
   try:
     res = model_validator.compare_model(ref, tgt, data, d['metric'], fn)
   except Exception as ex:  # pylint: disable=broad-except
